@@ -88,7 +88,9 @@ class Checker:
     OPS = ["add", "add", "add", "satisfiable", "eval", "eval", "batch_eval", "min", "max", "min", "max",
            "solution", "is_true", "simplify", "downsize", "branch", "eval_bool"]
 
-    def __init__(self, u, rng, solver, label, ops=None):
+    def __init__(self, u, rng, solver, label, ops=None, max_solvers=4, invariant=None):
+        self.max_solvers = max_solvers
+        self.invariant = invariant
         self.u, self.rng, self.label = u, rng, label
         self.ops = ops or self.OPS
         self.solvers = [(solver, [])]     # (solver, constraints added so far): branches are appended
@@ -243,9 +245,31 @@ class Checker:
             elif op == "downsize":
                 self.record(pre + "downsize()")
                 s.downsize()
-            elif op == "branch" and len(self.solvers) < 4:
+            elif op == "branch" and len(self.solvers) < self.max_solvers:
                 self.record(pre + "branch()")
                 self.solvers.append((s.branch(), list(cs)))
+            elif op == "combine" and len(self.solvers) < self.max_solvers:
+                sj = rng.randrange(len(self.solvers))
+                o, ocs = self.solvers[sj]
+                self.record(pre + "combine([s%d])" % sj)
+                self.solvers.append((s.combine([o]), list(cs) + list(ocs)))
+            elif op == "merge" and len(self.solvers) < self.max_solvers:
+                js = [rng.randrange(len(self.solvers)) for _ in range(rng.choice([0, 1, 1, 2]))]
+                conds = [rng.choice(forms + [lambda: self.u.b, lambda: c.Not(self.u.b)])() for _ in range(len(js) + 1)]
+                self.record(pre + "merge(%s, %s)" % (["s%d" % j for j in js], conds))
+                _, m = s.merge([self.solvers[j][0] for j in js], conds)
+                parts = [cs] + [self.solvers[j][1] for j in js]
+                self.solvers.append((m, [c.Or(*[c.And(v, *p) for v, p in zip(conds, parts)])]))
+            elif op == "split":
+                self.record(pre + "split()")
+                s.split()
+            if self.invariant is not None and self.fail is None:
+                for k, (sk, csk) in enumerate(self.solvers):
+                    msg = self.invariant(self.u, sk, csk)
+                    if msg:
+                        self.bad("after %s: solver s%d: %s" % (self.log[-1] if self.log else "start", k, msg),
+                                 constraints=[str(x) for x in csk])
+                        break
         except c.errors.UnsatError:
             if self.u.models(allc):
                 self.bad("UnsatError raised on satisfiable constraints by %s" % self.log[-1], constraints=[str(x) for x in cs],
@@ -258,13 +282,13 @@ class Checker:
             self.bad("exception %s by %s" % (type(ex).__name__, self.log[-1]), error=repr(ex))
 
 
-def run_histories(claripy, drv, rng, solver_factories, n_hist, steps, report=None, tag="h", ops=None):
+def run_histories(claripy, drv, rng, solver_factories, n_hist, steps, report=None, tag="h", ops=None, max_solvers=4, invariant=None):
     """-> first failure (dict) or None; counts into report"""
     fail = None
     for k in range(n_hist):
         label, factory = rng.choice(solver_factories)
         u = Universe(claripy, drv, tag="%s%d_" % (tag, k % 7))
-        ch = Checker(u, rng, factory(), label, ops=ops)
+        ch = Checker(u, rng, factory(), label, ops=ops, max_solvers=max_solvers, invariant=invariant)
         for _ in range(steps):
             ch.step()
             if ch.fail:
